@@ -123,6 +123,19 @@ CLAIMED['C11'] = dict(
     technique='TLA+ spec (MechModel.tla) model-checked with TLC; spec->code replay of transitions and simulated behaviours; '
               'code->spec trace validation (Trace_MechModel.tla) of recorded executions incl. the repository tests',
     design='6/C11')
+CLAIMED['C08'] = dict(
+    engine='FixParams',
+    text='Abstract state = the map of fixed name-value pairs; hidden state = mask, value buffer and the wrapped flag. TLC '
+         'checks over all dictionaries (values, None, absent, foreign keys) and histories that the transcribed mask/buffer '
+         'loop with collapse equals the declarative map update, that hidden state is a function of the map (order '
+         'independence), reversibility and the substitution. Every transition of the state graph is then executed on '
+         'eleven reducible object classes, reached by a short or a longer history, and names, counts and every evaluation '
+         '(value, pointwise, restricted sensitivities, seeded samples, simulation, copy) are compared with the unfixed '
+         'object at the substituted vector.',
+    note='3 names x 2 values (+ foreign key) replayed; 4 names x 3 values at specification level in the thorough tier; '
+         'the unfixed objects are the oracle',
+    technique='TLA+ spec (FixParams.tla) model-checked with TLC; one implementation test per transition of the state graph',
+    design='6/C08')
 
 NOT_YET = {
 }
